@@ -55,6 +55,7 @@ func main() {
 	dials := flag.Int("dials", 9, "retry: connection attempts per run")
 	runs := flag.Int("runs", 4, "retry: runs (minimum gap over runs)")
 	out := flag.String("out", "", "replay file written when a failing input is found")
+	prop := flag.String("prop", "C17", "retry: which property the caller searches a failing input for (C17: retry delay; C15: blocked goroutine)")
 	flag.Parse()
 	nodesim.InstallPointFn()
 	d, err := harness.StartDriver(*driver)
@@ -89,8 +90,14 @@ func main() {
 		var mins []time.Duration
 		for k := 0; k < *runs; k++ {
 			vr := w.Node.NewRepl(raft.VCNode{ID: 2, Addr: nodesim.AddrOf(2), Voter: true})
-			gaps, end := vr.RunRetry(*hb, *dials, 20*time.Second)
+			gaps, end := vr.RunRetry(*hb, *dials, 6*time.Second)
 			fmt.Printf("livestress retry: run %d end=%s gaps=%v\n", k, end, gaps)
+			if *prop == "C15" && end != "dials" {
+				found = map[string]interface{}{"engine": "livestress", "mode": "retry", "property_failed": "C15", "seed": *seed,
+					"note":  fmt.Sprintf("the real replication.runLoop against an unreachable peer made only %d of %d connection attempts and then stopped making progress (end=%s): the goroutine is blocked forever — after its retry timer fired once, the next safeTimer.reset waits in stop() for a value that was already received", len(gaps)+1, *dials, end),
+					"rerun": fmt.Sprintf("livestress -mode retry -prop C15 -hb %v -dials %d", *hb, *dials)}
+				break
+			}
 			for i, g := range gaps {
 				if i >= len(mins) {
 					mins = append(mins, g)
@@ -100,14 +107,29 @@ func main() {
 			}
 		}
 		for i, g := range mins {
-			if g >= *hb {
+			if *prop == "C17" && found == nil && g >= *hb {
 				found = map[string]interface{}{"engine": "livestress", "mode": "retry", "property_failed": "C17", "seed": *seed,
-					"note": fmt.Sprintf("with heartbeat timeout %v the real runLoop waited at least %v between its connection attempts %d and %d (minimum over %d runs): not shorter than the minimal election timeout %v, a follower that became reachable again times out before the leader retries", *hb, g, i+1, i+2, *runs, *hb),
+					"note":     fmt.Sprintf("with heartbeat timeout %v the real runLoop waited at least %v between its connection attempts %d and %d (minimum over %d runs): not shorter than the minimal election timeout %v, a follower that became reachable again times out before the leader retries", *hb, g, i+1, i+2, *runs, *hb),
 					"min_gaps": fmt.Sprint(mins), "rerun": fmt.Sprintf("livestress -mode retry -hb %v -dials %d -runs %d", *hb, *dials, *runs)}
 				break
 			}
 		}
 		fmt.Printf("livestress retry: minimal gaps %v, heartbeat timeout %v\n", mins, *hb)
+	}
+	if *mode == "deadline" || (*mode == "retry" && *prop == "C17" && found == nil) {
+		// the real replication.deadlineSize: is the write deadline of a payload reachable at the declared bandwidth?
+		vr := w.Node.NewRepl(raft.VCNode{ID: 2, Addr: nodesim.AddrOf(2), Voter: true})
+		for _, c := range []struct{ size, bw int64 }{{256 << 10, 16 << 10}, {1 << 20, 64 << 10}, {64 << 10, 1 << 20}} {
+			hbt := time.Second
+			got := vr.WriteTimeoutFor(c.size, c.bw, hbt)
+			need := time.Duration(float64(c.size) / float64(c.bw) * 1e9)
+			fmt.Printf("livestress deadline: payload %dB, declared bandwidth %dB/s, hbTimeout %v: write timeout %v, the declared bandwidth needs %v\n", c.size, c.bw, hbt, got.Round(time.Millisecond), need)
+			if got+50*time.Millisecond < need && found == nil {
+				found = map[string]interface{}{"engine": "livestress", "mode": "deadline", "property_failed": "C17", "seed": *seed,
+					"note":  fmt.Sprintf("the real replication.deadlineSize gives a payload of %d bytes a write timeout of %v although a link delivering the declared Options.Bandwidth of %d B/s needs %v: every attempt to send such a batch or snapshot times out, the same payload is resent with the same deadline, a lagging follower never catches up", c.size, got.Round(time.Millisecond), c.bw, need),
+					"rerun": "livestress -mode deadline"}
+			}
+		}
 	}
 	if found != nil {
 		if *out != "" {
